@@ -106,6 +106,11 @@ func (p c14) Run(c *core.Ctx) {
 			}
 			hres, err, pan := parseDirect(&used, l)
 			if err == nil && pan == "" {
+				for _, a := range hres.Attributes {
+					if a.Properties != nil {
+						a.Properties["written-by-the-caller"] = markup.Value{IntegerValue: k, ValueType: markup.ValueTypeInteger}
+					}
+				}
 				kept = append(kept, keptResult{hres, copyResult(hres), l, "the parser value of this history"})
 			}
 			if pan != "" {
@@ -142,6 +147,20 @@ func (p c14) Run(c *core.Ctx) {
 		}
 		c.Feature("veteran-parser-comparisons")
 		c.Feature("pairs")
+		// the caller wrote a property of its own into every attribute map of the history's results (they are
+		// its values): the result of parsing the probe shows none of that
+		for _, res := range []*markup.ParseResult{want, got, vgot} {
+			if res == nil {
+				continue
+			}
+			for _, a := range res.Attributes {
+				if _, leaked := a.Properties["written-by-the-caller"]; leaked {
+					c.Violate("the result of parsing a line carries a property the caller wrote into an EARLIER result", map[string]any{
+						"probe_quoted": fmt.Sprintf("%q", probe), "attribute": a.Name})
+					return
+				}
+			}
+		}
 		// results handed out earlier belong to the caller: parsing further lines must not change them
 		for _, k := range kept {
 			c.Feature("earlier-results-rechecked")
